@@ -15,7 +15,7 @@ from pbt.core import R, Sub
 
 RULE = (
     "Strata: every linear stepper class/variant (scalar, per-axis vector, SPD-matrix coefficients, both "
-    "spatial-mixing flags, generic/normalized/difficulty families) x D in 1..3 x odd/even N. Per case "
+    "spatial-mixing flags, generic/normalized/difficulty families with lists up to order 8; wave speed in R incl. 0) x D in 1..3 x odd/even N, plus 1D production-size grids (512..6000). Per case "
     "Hypothesis draws coefficients, L, the stiffness Z = max|lambda*dt| in [1e-3, 1e7] (or a raw dt in "
     "[1e-6, 1e6]), the sign of dt, a Nyquist-free trigonometric polynomial and a step count n. dt is capped "
     "so that exp growth stays below e^30. Oracle: exp(dt*symbol(k)) with the symbol written from the "
